@@ -850,6 +850,9 @@ def run(chk, F):
         "trees are reported as minimal (parent, slot, child) pairs. Leaf spelling (identifiers needing quotes, numerals, dates) "
         "is outside this model.")
     chk.assume("leaves are plain identifiers; numerals and date literals are excluded by the property statement")
+    # leaf tokens: the symbol Display prints for each temperature scale must be one the lexer reads back as that scale
+    import c10
+    chk.guard("aliases", "lexer", lambda: c10.aliases(chk, F))
     tables = chk.guard("extraction", "tables", lambda: extract(chk, F))
     if not tables:
         return
